@@ -106,7 +106,7 @@ def scenarios(draw, kinds=None, max_callers=4, limits=(1, 1, 2, 2, 3)):
           "choices": draw(st.lists(st.integers(0, 11), max_size=60)),
           "segs": draw(st.lists(st.sampled_from([0, 0, 1, 2, 7, 50, 1000]), max_size=5)),
           "dsegs": draw(st.lists(st.sampled_from([0, 0, 0, 1, 20, 60, 300, 5000]), max_size=4)),
-          "faults": [], "cancel": None, "server_closes": draw(st.sampled_from([0, 0, 0, 1, 2])),
+          "faults": [], "cancel": None, "server_closes": draw(st.sampled_from([0, 0, 0, 1, 2])), "retries": draw(st.sampled_from([0, 0, 0, 1, 2])),
           "runtime": draw(st.sampled_from(["asyncio", "asyncio", "trio"])),
           "late": draw(st.sampled_from([[], [], [], [1], [0, 1], [0, 0, 0, 1]])),
           "bursts": draw(st.sampled_from([[], [], [], [1], [0, 1], [2, 0, 1], [0, 0, 3, 1]]))}
@@ -120,6 +120,10 @@ def scenarios(draw, kinds=None, max_callers=4, limits=(1, 1, 2, 2, 3)):
         sc["h2_script"] = script
     for _ in range(draw(st.sampled_from([0, 0, 1, 1, 2]))):
         sc["faults"].append({"at": draw(st.integers(0, 60)), "fault": draw(st.sampled_from(["error", "error", "timeout", "eof"]))})
+    if sc["retries"] and draw(st.booleans()):
+        # connection attempts that fail and are retried (the pool's retries setting): other callers use the pool during the back-off pause
+        for k in range(draw(st.integers(1, 2))):
+            sc["faults"].append({"kind": "connect", "kind_index": draw(st.integers(0, 3)), "fault": draw(st.sampled_from(["ConnectError", "ConnectTimeout"]))})
     if draw(st.integers(0, 2)) == 0:
         sc["cancel"] = {"caller": draw(st.integers(0, n_callers - 1)), "style": draw(st.sampled_from(["task", "scope", "scope"])),
                         "at": draw(st.integers(1, 60))}
@@ -135,6 +139,8 @@ def scenarios(draw, kinds=None, max_callers=4, limits=(1, 1, 2, 2, 3)):
 def build(sc):
     maxc = sc["max_connections"]
     extra = {"max_connections": maxc}
+    if sc.get("retries"):
+        extra["retries"] = sc["retries"]
     if sc.get("max_keepalive") is not None:
         extra["max_keepalive_connections"] = sc["max_keepalive"]
     h2cfg = {"script": [dict(x) for x in sc["h2_script"]]} if sc.get("h2_script") else None
